@@ -534,6 +534,33 @@ def _unmask(v, mask):
     return rec(v)
 
 
+def _nonempty_guard(c, idx):
+    """is the condition exactly `len(idx) > 0` (in one of its spellings) for the stored index"""
+    if not isinstance(c, Term):
+        return False
+    zero, one = Term("const", Fraction(0)), Term("const", Fraction(1))
+
+    def is_len(z):
+        return isinstance(z, Term) and z.op == "len" and len(z.args) == 1 and (z.args[0] == idx or (isinstance(idx, Term) and idx.op == "nonzero1" and z.args[0] == idx))
+
+    if c.op == "truthy" and len(c.args) == 1:
+        return is_len(c.args[0])
+    if len(c.args) != 2:
+        return False
+    x, y = c.args
+    if c.op == "gt":
+        return is_len(x) and y == zero
+    if c.op == "lt":
+        return is_len(y) and x == zero
+    if c.op == "ne":
+        return (is_len(x) and y == zero) or (is_len(y) and x == zero)
+    if c.op == "ge":
+        return is_len(x) and y == one
+    if c.op == "le":
+        return is_len(y) and x == one
+    return False
+
+
 def _mk_where(c, x, y):
     """where(c, x, y) with canonical polarity and without unreachable nested branches"""
     while isinstance(c, Node) and c.op in ("invert", "not") and len(c.kids) == 1:
@@ -673,11 +700,11 @@ class Normalizer:
             if x == y:
                 return x
             # `if len(idx) > 0: b[idx] = v` : a store through an empty index is the identity
-            for st_t, other in ((a[1], a[2]), (a[2], a[1])):
-                if isinstance(st_t, Term) and st_t.op == "store" and self.nf(st_t.args[0]) == self.nf(other):
-                    c = a[0]
-                    if isinstance(c, Term) and c.op in ("gt", "lt", "ne", "truthy") and any(isinstance(z, Term) and z.op == "len" for z in c.args):
-                        return self.nf(st_t)
+            # only the exact guard "the index array is non-empty" (len(idx) > 0, 0 < len(idx),
+            # len(idx) != 0, len(idx) >= 1, truthiness of len) on the taken branch qualifies
+            st_t, other = a[1], a[2]
+            if isinstance(st_t, Term) and st_t.op == "store" and self.nf(st_t.args[0]) == self.nf(other) and _nonempty_guard(a[0], st_t.args[1]):
+                return self.nf(st_t)
             return P_atom(A("phi", self.freeze(a[0]), wrap(x), wrap(y)))
         if op == "not" and isinstance(a[0], Term) and a[0].op == "not":
             return self.nf(a[0].args[0])
